@@ -52,7 +52,7 @@ theorem cells_charPlain (cells : List Cell) (hok : ∀ c ∈ cells, c.ok)
           exact ⟨cell, hcell, by simp [ht]⟩)
         simp only [plainTok, String.toList_ofList, List.all_eq_true, Bool.and_eq_true, bne_iff_ne, ne_eq] at hplain
         have := hplain c h
-        exact charPlain_of_notWs c this.1.2 this.2 (htok.2 c h).1
+        exact charPlain_of_notWs c this.1.1 this.1.2 this.2 (htok.2 c h).1
     · rw [mem_spaces _ _ h]; exact charPlain_space
 
 /-- the part of an atom row / interaction line before its comment, as cells -/
@@ -146,18 +146,22 @@ theorem written_tokens (l : Line) (h : LineOk l)
     (hp : ∀ t ∈ lineTokens l, plainTok t = true) (t0 : String) (rest : List String)
     (ht : lineTokens l = t0 :: rest) :
     ∃ c r, C13.stripComment (renderLineChars l) = c :: r ∧ t0.toList.head? = some c ∧
-      C13.tokenizeS (String.ofList (c :: r)) = some (lineTokens l) := by
+      C13.tokenizeS (String.ofList (c :: r)) = some (lineTokens l) ∧ ∀ x ∈ c :: r, x ≠ '$' := by
   obtain ⟨cells, hok, hform, htoks⟩ := cell_form l h hk
   have hsplit : splitWs (C02.stripComment (renderLineChars l)) = lineTokens l :=
     C02.tokenize_renderLine l h
   rw [stripComment_eq]
   obtain ⟨c, r, hcr, hhead⟩ := (strip_of_tokens (C02.stripComment (renderLineChars l))).2 t0 rest
     (by rw [hsplit, ht])
-  refine ⟨c, r, hcr, hhead, ?_⟩
-  rw [← hcr, tokenizeS_plain, splitWs_strip, hsplit]
-  intro x hx
-  have hx' := mem_stripChars _ _ _ hx
-  rw [hform] at hx'
-  exact cells_charPlain cells hok (by rw [htoks]; exact hp) x hx'
+  have hplainAll : ∀ x ∈ C13.stripChars C02.isWs (C02.stripComment (renderLineChars l)), CharPlain x := by
+    intro x hx
+    have hx' := mem_stripChars _ _ _ hx
+    rw [hform] at hx'
+    exact cells_charPlain cells hok (by rw [htoks]; exact hp) x hx'
+  refine ⟨c, r, hcr, hhead, ?_, ?_⟩
+  · rw [← hcr, tokenizeS_plain _ hplainAll, splitWs_strip, hsplit]
+  · intro x hx
+    rw [← hcr] at hx
+    exact (hplainAll x hx).1
 
 end C02.Repo
